@@ -1,5 +1,5 @@
 // govc:pkg .
-// govc:bound 12 aggregate SELECT items (sum, avg, min, max, count(col), count(*), first_value, last_value, collect, expression arguments) x 30 (thorough: 120) random feeds of 18 rows over 3 groups with NULL and missing inputs, two consecutive batches per group (state must not leak)
+// govc:bound second test: 20 feeds of one query with FIVE aggregates over nested-field expressions that share their first field (sum(n.x), sum(n.x + n.y), max(n.x * 2), min(n.y), nth_value(n.x, 2)); first test: 8 aggregate SELECT items (sum, avg, min, max, count(col), count(*), first_value, last_value, collect, expression arguments) x 30 (thorough: 120) random feeds of 18 rows over 3 groups with NULL and missing inputs, two consecutive batches per group (state must not leak)
 // Bounded stand-in (NOT a proof) for the wiring around the accumulators under contract (NULL skipping and numeric
 // coercion in GroupAggregator.Add, expression arguments evaluated per row, reset between batches, partitioning by key).
 package streamsql
@@ -213,4 +213,86 @@ func govcAnaNumAgg(v any) (float64, bool) {
 		return x, true
 	}
 	return 0, false
+}
+
+
+// Several aggregates of one query whose expression arguments start with the same (nested) field: each aggregate must be
+// fed its OWN expression evaluated per row.
+func TestGovcBounded_aggregates_expression_arguments_per_aggregate(t *testing.T) {
+	rng := rand.New(rand.NewSource(17))
+	cases, fails := 0, 0
+	sql := "SELECT g, sum(n.x) AS a, sum(n.x + n.y) AS b, max(n.x * 2) AS c, min(n.y) AS d, nth_value(n.x, 2) AS e FROM stream GROUP BY g, CountingWindow(3)"
+	for feed := 0; feed < 20; feed++ {
+		cases++
+		s := New()
+		if err := s.Execute(sql); err != nil {
+			fails++
+			fmt.Printf("GOVC-BOUNDED-FAIL aggregates_multi: execute: %v\n", err)
+			s.Stop()
+			break
+		}
+		var mu sync.Mutex
+		var got []map[string]any
+		s.AddSyncSink(func(rs []map[string]any) {
+			mu.Lock()
+			defer mu.Unlock()
+			got = append(got, rs...)
+		})
+		type xy struct{ x, y float64 }
+		buf := map[string][]xy{}
+		var want []map[string]float64
+		var wantG []string
+		for i := 0; i < 12; i++ {
+			g := []string{"a", "b"}[rng.Intn(2)]
+			v := xy{float64(rng.Intn(7)), float64(rng.Intn(7))}
+			s.Emit(map[string]any{"g": g, "n": map[string]any{"x": v.x, "y": v.y}})
+			buf[g] = append(buf[g], v)
+			if len(buf[g]) == 3 {
+				b := buf[g]
+				w := map[string]float64{"a": b[0].x + b[1].x + b[2].x, "b": b[0].x + b[0].y + b[1].x + b[1].y + b[2].x + b[2].y,
+					"c": math.Max(math.Max(b[0].x, b[1].x), b[2].x) * 2, "d": math.Min(math.Min(b[0].y, b[1].y), b[2].y), "e": b[1].x}
+				want = append(want, w)
+				wantG = append(wantG, g)
+				buf[g] = nil
+			}
+		}
+		deadline := time.Now().Add(15 * time.Second)
+		for time.Now().Before(deadline) {
+			mu.Lock()
+			n := len(got)
+			mu.Unlock()
+			if n >= len(want) {
+				break
+			}
+			time.Sleep(time.Millisecond)
+		}
+		time.Sleep(5 * time.Millisecond)
+		mu.Lock()
+		res := append([]map[string]any(nil), got...)
+		mu.Unlock()
+		s.Stop()
+		detail := ""
+		if len(res) != len(want) {
+			detail = fmt.Sprintf("%d batches delivered, %d expected", len(res), len(want))
+		}
+		for i := 0; detail == "" && i < len(want); i++ {
+			if res[i]["g"] != wantG[i] {
+				detail = fmt.Sprintf("batch %d: group %v, expected %v", i, res[i]["g"], wantG[i])
+			}
+			for k, w := range want[i] {
+				y, ok := govcAnaNumAgg(res[i][k])
+				if !ok || math.Abs(y-w) > 1e-9 {
+					detail = fmt.Sprintf("batch %d (group %v): %s=%v, definition gives %v", i, wantG[i], k, res[i][k], w)
+				}
+			}
+		}
+		if detail != "" {
+			fails++
+			fmt.Printf("GOVC-BOUNDED-FAIL aggregates_multi feed=%d: %s\n", feed, detail)
+		}
+	}
+	fmt.Printf("GOVC-BOUNDED-DONE aggregates_multi cases=%d failures=%d\n", cases, fails)
+	if fails > 0 {
+		t.Fail()
+	}
 }
